@@ -46,6 +46,28 @@ Accept(e) ==
          /\ Vals(e.push_back) = (IF n = 0 THEN a ELSE SubSeq(a, 2, n) \o <<9>> \o SubSeq(a, n + 1, Len(a)))
          /\ Vals(e.roll_fore) = (IF n = 0 THEN a ELSE SubSeq(a, 2, n) \o <<a[1]>> \o SubSeq(a, n + 1, Len(a)))
          /\ Vals(e.roll_back) = (IF n = 0 THEN a ELSE <<a[n]>> \o SubSeq(a, 1, n - 1) \o SubSeq(a, n + 1, Len(a)))
+    [] e.f = "bulk" ->
+         \* bulk shift helpers on the first bn cells of an array of 8 (the rest must stay untouched)
+         LET bn == e.bn  cn == e.cn  blk == SubSeq(e.b, 1, bn)  rest == SubSeq(e.b, bn + 1, 8)
+             cache == SubSeq(e.c, 1, cn)
+             n == IF cn < bn THEN cn ELSE bn
+             RotL(s, k) == [i \in 1..Len(s) |-> s[((i - 1 + k) % Len(s)) + 1]]
+             RotR(s, k) == [i \in 1..Len(s) |-> s[((i - 1 - k + 3 * 8 * Len(s)) % Len(s)) + 1]] IN
+         /\ Ints(e.push_fore) /\ Ints(e.push_back) /\ Ints(e.roll_fore) /\ Ints(e.roll_back) /\ Ints(e.roll_fore2) /\ Ints(e.roll_back2)
+         \* appending the cache element by element with the one-element push: the last bn of block ++ cache
+         /\ Vals(e.push_back) = SubSeq(blk \o cache, cn + 1, cn + bn) \o rest
+         \* a cache not longer than the block goes in front in its own order, the block's head moves up
+         /\ (cn <= bn => Vals(e.push_fore) = SubSeq(cache \o blk, 1, bn) \o rest)
+         \* a longer cache: undocumented which window of it remains - required: some contiguous window of the cache, rest untouched
+         /\ (cn > bn => /\ SubSeq(Vals(e.push_fore), bn + 1, 8) = rest
+                        /\ \E o \in 0..(cn - bn) : SubSeq(Vals(e.push_fore), 1, bn) = SubSeq(cache, o + 1, o + bn))
+         /\ Vals(e.roll_fore) = RotL(blk, cn % bn) \o rest /\ Vals(e.roll_fore2) = RotL(blk, cn % bn) \o rest
+         /\ Vals(e.roll_back) = RotR(blk, cn % bn) \o rest /\ Vals(e.roll_back2) = RotR(blk, cn % bn) \o rest
+    [] e.f = "swaps" ->
+         /\ Ints(e.ra) /\ Ints(e.rb)
+         /\ Vals(e.ra) = [i \in 1..12 |-> IF (i - 1) % e.lc = 0 /\ (i - 1) \div e.lc < e.n THEN e.b[((i - 1) \div e.lc) * e.rc + 1] ELSE e.a[i]]
+         /\ Vals(e.rb) = [i \in 1..12 |-> IF (i - 1) % e.rc = 0 /\ (i - 1) \div e.rc < e.n THEN e.a[((i - 1) \div e.rc) * e.lc + 1] ELSE e.b[i]]
+    [] e.f = "angle" -> NearTol(e.deg, RQ(45 * e.q)) /\ NearTol(e.rad4, RQ(e.q))
     [] e.f = "coord" ->
          \* Pythagorean points on the axes / in the quadrants: radius exact, angle in the right octant (units of pi/4), round trip
          \* the radius is exact where it is an integer (axis points and Pythagorean points)
